@@ -205,6 +205,10 @@ Inductive op :=
 | OAllocNew (a1 a2 : nat) (has_free : bool)        (* v = ffi.new_allocator(alloc, free)("int[4]"):
                                                       the cdata returned by alloc(), the wrapper *)
 | OAllocNewStruct (a1 a2 a3 : nat) (has_free : bool)  (* ... ("struct s *"): raw, wrapper, pointer *)
+| ONewFail                                         (* ffi.new("int[4]", <rejected initializer>): raises; the cdata
+                                                      made before the conversion is released at once *)
+| OAllocNewFail (a1 a2 : nat) (has_free : bool)    (* the same through ffi.new_allocator(alloc, free): alloc()
+                                                      has been called; the wrapper must die and call free *)
 | OAlias (p : nat)                                 (* v = p[0] *)
 | OGc (p a : nat) (y : option nat)                 (* v = ffi.gc(p, d); d's closure refers to y *)
 | OGcNone (w : nat)                                (* ffi.gc(w, None) *)
@@ -271,6 +275,17 @@ Definition step (s : state) (o : op) : state :=
         let s1 := alloc s (fresh KRaw a1 0 false None) in
         let s2 := alloc s1 (fresh (KGcp (Some (next s)) (dtor_of has_free)) a2 0 has_free None) in
         alloc s2 (fresh (KStructPtr (next s1)) a3 1 false None)
+      else s
+  | ONewFail => s
+  | OAllocNewFail a1 a2 has_free =>
+      (* direct_newp :3945-3990: allocate_with_allocator succeeded, convert_from_object failed;
+         Py_DECREF(cd) frees the wrapper (Gen.gen_newp_fail_decref) - without it the wrapper keeps
+         its reference count of 1 for ever *)
+      if addr_free s a1 && addr_free s a2 && negb (Nat.eqb a1 a2) then
+        let s1 := alloc s (fresh KRaw a1 0 false None) in
+        let s2 := alloc s1 (fresh (KGcp (Some (next s)) (dtor_of has_free)) a2
+                                  (if gen_newp_fail_decref then 0 else 1) has_free None) in
+        if gen_newp_fail_decref then collect s2 [S (next s); next s] else s2
       else s
   | OAlias p =>
       if usable s p then
